@@ -290,3 +290,6 @@ Proof.
 Qed.
 
 End PcInv.
+
+Lemma pc_eq_dec_load (p : pc) : p = MDtLoad \/ p <> MDtLoad.
+Proof. destruct p; auto; right; discriminate. Qed.
